@@ -9,19 +9,22 @@
 //!   @ recop <elem> <vv|vc|cv|cc> <op> <a> <b>   Record op Record      (4 forms, fresh tape each)
 //!   @ recsc <elem> <v|c> <op> <a> <r>           Record op T           (4 forms)
 //!   @ recneg <elem> <v|c> <a>                   -Record               (2 forms)
+//!   @ recsw <elem> <v|c> <sub|div> <a> <lhs>    lhs - Record, lhs / Record through SwappedOperations (4 impls)
 //!   @ recpow <elem> <vv|vc|cv|cc> <a> <b>       Record^Record, Record^T, T^Record (12 forms)
 //!   @ freal <elem> <fn> <a> <b>                 sqrt exp ln sin cos (by value / by reference), pow (4 forms), pi
 //!                                               on the primitive float itself (src/numeric.rs *_float! macros)
 //!   @ trreal <elem> <fn> <an> <ad>              the same functions on Trace<elem>
 //!   @ recreal <elem> <v|c> <fn> <a>             … and on Record<elem>
 //!
-//! <elem>: i64 (overflow checks on; small operands), wrapping_u8, Fp — compared with the model —
+//! <elem>: i64 / i32 / i8 (overflow checks on; small operands and the boundary values MIN, MIN+1, -1, 0, 1,
+//! MAX-1, MAX), wrapping_u8, Fp — compared with the model —
 //! and f64 / f32, whose forms are compared with each other only (bit patterns; answer `agree`).
 //! The answer of a Trace line is `num=<v> der=<v>`; of a Record line `num=<v> hist=<some|none>
 //! idx=<index> [dx=<v>] [dy=<v>]` (derivatives of the result with respect to the variable operands).
 
 use crate::exact::{Fp, P};
 use crate::util::*;
+use easy_ml::differentiation::record_operations::SwappedOperations;
 use easy_ml::differentiation::{Primitive, Record, Trace, WengertList};
 use easy_ml::numeric::extra::{Cos, Exp, Ln, Pi, Pow, Real, RealRef, Sin, Sqrt};
 use easy_ml::numeric::{Numeric, NumericRef};
@@ -37,6 +40,14 @@ pub trait WElem: Numeric + Primitive + Clone + 'static {
 }
 impl WElem for i64 {
     fn parse(s: &str) -> Option<i64> { s.parse().ok() }
+    fn show(&self) -> String { self.to_string() }
+}
+impl WElem for i32 {
+    fn parse(s: &str) -> Option<i32> { s.parse().ok() }
+    fn show(&self) -> String { self.to_string() }
+}
+impl WElem for i8 {
+    fn parse(s: &str) -> Option<i8> { s.parse().ok() }
     fn show(&self) -> String { self.to_string() }
 }
 impl WElem for Wrapping<u8> {
@@ -247,6 +258,18 @@ where
     }))
 }
 
+/// `number ∘ record` through `SwappedOperations` (`lhs - record`, `lhs / record`), its four impls
+fn record_swapped<E: WElem>(op: &str, va: bool, a: &E, lhs: &E) -> Option<String>
+where
+    for<'x> &'x E: NumericRef<E>,
+{
+    Some(merge(match op {
+        "sub" => record_scalar_forms!(va, a, lhs, |x, s| [x.sub_swapped(s), x.sub_swapped(&s), (&x).sub_swapped(s), (&x).sub_swapped(&s)]),
+        "div" => record_scalar_forms!(va, a, lhs, |x, s| [x.div_swapped(s), x.div_swapped(&s), (&x).div_swapped(s), (&x).div_swapped(&s)]),
+        _ => return None,
+    }))
+}
+
 fn record_neg<E: WElem>(va: bool, a: &E) -> String
 where
     for<'x> &'x E: NumericRef<E>,
@@ -404,6 +427,7 @@ where
         }
         "recsc" => record_scalar::<E>(args.get(1)?, kind(args.first()?)?, &p(2)?, &p(3)?),
         "recneg" => Some(record_neg::<E>(kind(args.first()?)?, &p(1)?)),
+        "recsw" => record_swapped::<E>(args.get(1)?, kind(args.first()?)?, &p(2)?, &p(3)?),
         _ => None,
     }
 }
@@ -430,6 +454,8 @@ pub fn run(cmd: &str, toks: &[&str]) -> String {
     let Some((elem, args)) = toks.split_first() else { return "bad-op".into() };
     let r = match *elem {
         "i64" => run_at::<i64>(cmd, args),
+        "i32" => run_at::<i32>(cmd, args),
+        "i8" => run_at::<i8>(cmd, args),
         "wrapping_u8" => run_at::<Wrapping<u8>>(cmd, args),
         "Fp" => run_at::<Fp>(cmd, args).or_else(|| {
             // Real functions at Fp: form agreement only here (their formulas are C04 / C05)
@@ -483,7 +509,53 @@ fn val(g: &mut Gen, elem: &str, nonzero: bool) -> String {
     }
 }
 
+/// MIN, MIN+1, -1, 0, 1, MAX-1, MAX (and a few small values) of a bounded integer type
+fn boundary(g: &mut Gen, elem: &str) -> String {
+    let (min, max): (i128, i128) = match elem {
+        "i8" => (i8::MIN as i128, i8::MAX as i128),
+        "i32" => (i32::MIN as i128, i32::MAX as i128),
+        _ => (i64::MIN as i128, i64::MAX as i128),
+    };
+    let pool = [min, min + 1, -1, 0, 1, max - 1, max, 2, -2, 3, max / 2, min / 2];
+    if g.rng.chance(3, 4) { pool[g.rng.below(7)].to_string() } else { pool[g.rng.below(pool.len())].to_string() }
+}
+
+/// every operator and form of Trace / Record at the bounded integers' boundary values: the
+/// wrapper's number (or panic kind) is the plain checked operator's on the same operands
+fn gen_boundaries(g: &mut Gen) {
+    let reps = if g.thorough { 60 } else { 10 };
+    for elem in ["i8", "i32", "i64"] {
+        for op in ["add", "sub", "mul", "div"] {
+            for _ in 0..reps {
+                let (an, ad, bn, bd) = (boundary(g, elem), boundary(g, elem), boundary(g, elem), boundary(g, elem));
+                g.op(format!("@ trop {} {} {} {} {} {}", elem, op, an, ad, bn, bd));
+                g.op(format!("@ trsc {} {} {} {} {}", elem, op, an, ad, bn));
+                for ks in ["vv", "vc", "cv", "cc"] {
+                    g.op(format!("@ recop {} {} {} {} {}", elem, ks, op, an, bn));
+                }
+                for k in ["v", "c"] {
+                    g.op(format!("@ recsc {} {} {} {} {}", elem, k, op, an, bn));
+                    if op == "sub" || op == "div" {
+                        g.op(format!("@ recsw {} {} {} {} {}", elem, k, op, an, bn));
+                        g.count(&format!("wrap.boundary.record-swapped.{}.{}", elem, op));
+                    }
+                }
+                g.count(&format!("wrap.boundary.{}.{}", elem, op));
+            }
+        }
+        for _ in 0..reps {
+            let (an, ad) = (boundary(g, elem), boundary(g, elem));
+            g.op(format!("@ trneg {} {} {}", elem, an, ad));
+            for k in ["v", "c"] {
+                g.op(format!("@ recneg {} {} {}", elem, k, an));
+            }
+            g.count(&format!("wrap.boundary.{}.neg", elem));
+        }
+    }
+}
+
 pub fn gen(g: &mut Gen) {
+    gen_boundaries(g);
     let reps = if g.thorough { 120 } else { 12 };
     let ops = ["add", "sub", "mul", "div"];
     for elem in ["i64", "wrapping_u8", "Fp", "f64", "f32"] {
@@ -509,6 +581,10 @@ pub fn gen(g: &mut Gen) {
                 for k in ["v", "c"] {
                     g.op(format!("@ recsc {} {} {} {} {}", elem, k, op, an, bn));
                     g.count(&format!("wrap.record-scalar.{}.{}", k, op));
+                    if op == "sub" || op == "div" {
+                        g.op(format!("@ recsw {} {} {} {} {}", elem, k, op, an, bn));
+                        g.count(&format!("wrap.record-swapped.{}.{}", k, op));
+                    }
                 }
                 g.count(&format!("wrap.type.{}", elem));
                 if an != bn {
